@@ -17,6 +17,7 @@ theorem repS_snoc (evs : List Event) (ev : Event) : repS (evs ++ [ev]) = repS ev
 structure RunInv (H : List Op) (t : Tracker) (evs : List Event) : Prop where
   rel : Rel H t
   inv : Inv t
+  hiAtt : t.highest = 0 ∨ ∃ b, Final H b ∧ b.1 = t.highest
   repFin : ∀ s h, t.first ≤ s → ((s, h) ∈ repF evs ↔ finalHash (t.status s) = some h)
   repSkip : ∀ s, t.first ≤ s → (s ∈ repS evs ↔ t.status s = some .implSkipped)
   below : ∀ s, 1 ≤ s → s < t.first → (s ∈ repS evs ∨ ∃ h, (s, h) ∈ repF evs)
@@ -32,7 +33,7 @@ theorem skipped_of_dec {o : Option Status} (d : Dec o) (e : finalHash o = none) 
   · exact e'
 
 theorem runInv_init : RunInv [] init [] := by
-  refine ⟨rel_init, inv_init, ?_, ?_, ?_, ?_, ?_, List.nodup_nil, List.nodup_nil, ?_⟩
+  refine ⟨rel_init, inv_init, Or.inl rfl, ?_, ?_, ?_, ?_, ?_, List.nodup_nil, List.nodup_nil, ?_⟩
   rotate_right
   · intro ⟨x, hx, hd⟩; cases hx
   · intro s h _
@@ -86,7 +87,20 @@ theorem runInv_step {H : List Op} {t : Tracker} {evs : List Event} (ri : RunInv 
     · rw [me.low x hx] at d; exact absurd d n
     · omega
   have inv' := (step_spec ri.inv h).inv
-  refine ⟨r', inv', ?_, ?_, ?_, ?_, ?_, ?_, ?_, ?_⟩
+  have hhi : t'.highest = 0 ∨ ∃ b, Final (H ++ [op]) b ∧ b.1 = t'.highest := by
+    have e1 : t'.highest = m.highest := by
+      rcases hm with ⟨e, _⟩ | e
+      · rw [e]
+      · rw [e]; rfl
+    have old : t.highest = 0 ∨ ∃ b, Final (H ++ [op]) b ∧ b.1 = t.highest :=
+      ri.hiAtt.elim Or.inl (fun ⟨b, hb, e⟩ => Or.inr ⟨b, hb.mono hs, e⟩)
+    rcases me.hi with e2 | ⟨b, hb, e2⟩
+    · rw [e1, e2]; exact old
+    · by_cases c : b.1 ≤ t.highest
+      · rw [e1, e2, Nat.max_eq_right c]; exact old
+      · right
+        exact ⟨b, snd.1 b hb, by rw [e1, e2]; omega⟩
+  refine ⟨r', inv', hhi, ?_, ?_, ?_, ?_, ?_, ?_, ?_, ?_⟩
   rotate_right
   · rcases hm with ⟨e, e2⟩ | e
     · intro d
